@@ -64,6 +64,23 @@ variable (k : Nat) (pre : Bytes)
     advWhile p (z.shift k pre) = (advWhile p z).shift k pre := by
   simp [advWhile]
 
+@[simp] theorem advLineF_shift (p : UInt8 → Bool) (n : Nat) (z : Z) :
+    advLineF p n (z.shift k pre) = (advLineF p n z).shift k pre := by
+  induction n generalizing z with
+  | zero => rfl
+  | succ n ih =>
+    unfold advLineF
+    simp only [shift_after]
+    split
+    · rfl
+    · split
+      · rw [advance_shift, ih]
+      · rfl
+
+@[simp] theorem advLine_shift (p : UInt8 → Bool) (z : Z) :
+    advLine p (z.shift k pre) = (advLine p z).shift k pre := by
+  simp [advLine]
+
 @[simp] theorem skipSpaces_shift (z : Z) : skipSpaces (z.shift k pre) = (skipSpaces z).shift k pre := by
   simp [skipSpaces]
 
@@ -148,9 +165,10 @@ theorem followsAmountNumber_shift (pre' : Bytes) (z : Z) :
   simp [scanText]
 
 @[simp] theorem scanNewline_shift (z : Z) : scanNewline (z.shift k pre) = shiftR k pre (scanNewline z) := by
-  simp only [scanNewline, advance_shift]
-  have : ({ (advance z).shift k pre with line := ((advance z).shift k pre).line + 1, col := 1, atStart := true } : Z)
-      = ({ advance z with line := (advance z).line + 1, col := 1, atStart := true } : Z).shift k pre := by
+  simp only [scanNewline, advIf_shift, advance_shift]
+  generalize advance (advIf (· == 0x0D) z) = z1
+  have : ({ z1.shift k pre with line := (z1.shift k pre).line + 1, col := 1, atStart := true } : Z)
+      = ({ z1 with line := z1.line + 1, col := 1, atStart := true } : Z).shift k pre := by
     simp [Z.shift]; omega
   rw [this, mkTok_shift]
 
@@ -198,7 +216,9 @@ theorem scanLineStart_shift (C : Classes) (pre' : Bytes) (z : Z) :
     scanLineStart C (z.shift k (0x0A :: pre')) = shiftR k (0x0A :: pre') (scanLineStart C z) := by
   have : ({ z.shift k (0x0A :: pre') with atStart := false } : Z)
       = ({ z with atStart := false } : Z).shift k (0x0A :: pre') := rfl
-  simp only [scanLineStart, this, peek_shift, scanComment_shift, scanIndent_shift, scanDate_shift,
+  simp only [scanLineStart, this]
+  generalize ({ z with atStart := false } : Z) = z1
+  simp only [scanLineStartAt, peek_shift, shift_after, scanComment_shift, scanIndent_shift, scanDate_shift,
     scanDirectiveOrAccount_shift, scanInLine_shift, apply_ite (shiftR k (0x0A :: pre'))]
 
 /-- `Next` on the rest of a document behind a line feed = `Next` on that rest alone, shifted. -/
